@@ -36,8 +36,85 @@ def belongs(ob):
     return "/encoding-independent" in ob
 
 
+ENCODING_FREE = {"working_shape", "corner", "shape", "scaffold_shape", "interacting_shape", "scaffold", "marginless", "scaffold_size", "debug"}
+ENCODING_READS = {"common", "items", "keys", "values", "get", "abscissae", "sparsity", "common_rowids", "to_array", "sliced", "slices1d", "shift_common"}
+
+
+def corner_reads():
+    """Structural obligations on every ffunc's get_initial_regions (the working-tree AST): the grand-total corner is set from
+    the fact / weight arrays and from encoding-free attributes of the cube only - never from a dimension's common value
+    or entries.  -> (obligations [(name, ok, text)], stale [(name, why)])"""
+    import ast
+
+    from .. import env
+
+    tree = ast.parse(env.read_source("ffuncs.py"))
+    obls, stale = [], []
+    for c in tree.body:
+        if not (isinstance(c, ast.ClassDef) and c.name.startswith("ffunc")):
+            continue
+        for m in c.body:
+            if not (isinstance(m, ast.FunctionDef) and m.name == "get_initial_regions") or len(m.args.args) < 2:
+                continue
+            cube = m.args.args[1].arg
+            name = "ffuncs.%s.get_initial_regions/corner-reads-nothing-of-the-encoding" % c.name
+            bad, unknown = [], []
+            parents = {}
+            for node in ast.walk(m):
+                for ch in ast.iter_child_nodes(node):
+                    parents[ch] = node
+            for node in ast.walk(m):
+                if isinstance(node, ast.Name) and node.id == cube and isinstance(node.ctx, ast.Load):
+                    # climb the attribute / subscript / call chain rooted here
+                    chain, cur = [], node
+                    while True:
+                        par = parents.get(cur)
+                        if isinstance(par, ast.Attribute) and par.value is cur:
+                            chain.append(par.attr)
+                        elif isinstance(par, ast.Subscript) and par.value is cur:
+                            chain.append("[]")
+                        elif isinstance(par, ast.Call) and par.func is cur:
+                            chain.append("()")
+                        else:
+                            break
+                        cur = par
+                    text = cube + "".join(("." + a) if a not in ("[]", "()") else a for a in chain)
+                    if any(a in ENCODING_READS for a in chain):
+                        bad.append(text)
+                    elif not chain:
+                        unknown.append("bare use of %s in %s" % (cube, ast.unparse(parents.get(node))[:60]))
+                    elif chain[0] in ENCODING_FREE:
+                        pass
+                    elif chain[0] == "dims" and (chain[1:] in ([], ["[]", "shape", "[]"], ["[]", "shape"], ["[]", "size"]) or (isinstance(parents.get(cur), ast.Call) and ast.unparse(parents[cur].func) == "len")):
+                        pass
+                    elif chain[0] == "dims" and isinstance(parents.get(cur), (ast.If, ast.IfExp, ast.BoolOp, ast.UnaryOp)) and chain == ["dims"]:
+                        pass
+                    else:
+                        unknown.append(text)
+            if unknown and not bad:
+                stale.append((name, "reads not classified: %s" % ", ".join(sorted(set(unknown))[:4])))
+            else:
+                obls.append((name, not bad, "reads of the cube: encoding-dependent %r" % (sorted(set(bad)),) if bad else "only encoding-free reads of `%s`" % cube))
+    return obls, stale
+
+
 def run(ctx):
+    from ..kvc import symdiff
+
+    cr_obls, cr_stale = corner_reads()
+    if not cr_obls and not cr_stale:
+        raise core.CheckerBroken("no get_initial_regions found in ffuncs.py")
+    sym, sym_s = symdiff.run(ctx.tier)
     mon, totals = runner.run_sharded(drive_encoding.work, ctx.tier, extra=int(ctx.seed))
+    for name, ok_, text in cr_obls:
+        if not ok_:
+            donors = [f for f in mon.failures if belongs(f.obligation)]
+            ctx.violation(core.Violation("C05", name, "the grand-total corner is initialised from the encoding: %s" % text, input=donors[0].input if donors else None,
+                                         cls={"site": name}, solver={"site": text}, no_input=not donors))
+    for name, verdict, detail in [r for r in sym if r[1] != "unsat"][:3]:
+        ctx.violation(core.Violation("C05", name, "the real _compute_common_cells_from_marginal_diffs, run on symbolic cell contents under this tuple of common values, "
+                                     "does not return the per-cell value (which no other tuple of common values changes): %r" % (detail,),
+                                     input={"config": name.split("[", 1)[1].rstrip("]"), "cell": detail}, cls={"function": "_compute_common_cells_from_marginal_diffs"}))
     kinds = {k.split("/", 1)[1]: int(v) for k, v in mon.calls.items() if k.startswith("C05:common-cell/")}
     for need in ("empty", "rare", "most_frequent"):
         if not kinds.get(need):
@@ -50,6 +127,14 @@ def run(ctx):
                                                   "fewer than the mode / as many rows as the mode",
                              "exhaustive_data_families": drive_encoding.exhaustive_families(ctx.tier),
                              "families": [f["name"] for f in drive_encoding.families(ctx.tier)]})
+    ctx.coverage["proved_subobligations"] = {
+        "what": "(1) the REAL _compute_common_cells_from_marginal_diffs executed on object arrays of z3 terms: for every tuple of common values of a shape the "
+                "differenced region equals the same per-cell symbol, for ALL cell contents (bounded in shape: 1-3 dims, extents 1-3, with/without scaffold); "
+                "(2) structural obligations on every ffunc's get_initial_regions: the grand-total corner reads no common value and no entry of any dimension",
+        "obligations": len(sym) + len(cr_obls), "discharged": sum(1 for r in sym if r[1] == "unsat") + sum(1 for o in cr_obls if o[1]),
+        "solver_s": round(sym_s, 2), "corner_reads": [list(map(str, o)) for o in cr_obls], "proof_stale": cr_stale}
+    if cr_stale:
+        ctx.notes.append("proof_stale: %r - decided by the bounded encoding comparison" % (cr_stale,))
     ctx.assumptions += ["bounded: holds on the enumerated cube/call/encoding scope only (engine C is the bounded stand-in, not a proof)",
                         "oracle is relational by the property's own definition: library output under one encoding against library output "
                         "under another; agreement with the per-cell definition is C02/C03's obligation",
